@@ -30,6 +30,11 @@ var nmLS []string = []string{"a", "b"}
 `
 
 var NearMissLines = []string{
+	// Go idioms the language does not have (a change may add one of them)
+	`x := make([]int, 3)`, `x := make([]int, -1)`, `x := make([]string, 999999999999999999)`, `x := make([]int, nmI)`, `x := make([]int)`, `nmL = append(nmL, 1)`, `nmL = append(nmL, nmL...)`,
+	`x := cap(nmL)`, `x := new(int)`, `const c = 1`, `const c int = -1`, `type T int`, `type T struct {` + "\n}", `m := map[string]int{}`, `defer nmVoid()`, `go nmVoid()`,
+	`for i := range 10 {` + "\n}", `for range nmL {` + "\n}", `x := nmL[1:2]`, `x := nmL[-1]`, `x := nmS[-1:]`, `var f float64 = 1.5`, `x := 'a'`, `x := 0x10`, `x := 1_000`, `x := 1e3`, `nmI <<= 1`, `x := nmI &^ 1`,
+	`if x := 1; x > 0 {` + "\n}", `switch x := nmI; x {` + "\ncase 1:\n}", `func() {` + "\n}()", `x := func() int {` + "\nreturn 1\n}", `nmL[0], nmL[1] = nmL[1], nmL[0]`, `var ( a int` + "\n)", `goto L`, `L:`,
 	`x1 := 1 + nmVoid()`,
 	`x2 := nmVoid() + 1`,
 	`x3 := nmVoid()`,
